@@ -30,6 +30,18 @@ PYTHON = '/venv/bin/python'
 MAX_CONFIRM = 6  # violations re-executed in a fresh interpreter before being printed
 
 
+def replay_check(ctx, pool, fn, jobs, results, stride=16, key=lambda r: r):
+    """Run every stride-th job a second time and require the same observation: determinism of the machinery is shown on
+    every run, and a divergence is an error of the machinery (exit 2), never a verdict."""
+    idx = list(range(0, len(jobs), stride if len(jobs) > 64 else 1))
+    again = pool.map(fn, [jobs[i] for i in idx], chunksize=max(1, len(idx) // 64))
+    for i, r2 in zip(idx, again):
+        if repr(key(results[i])) != repr(key(r2)):
+            raise HarnessError(f'job {str(jobs[i])[:200]} was observed differently the second time: {str(key(results[i]))[:300]} / {str(key(r2))[:300]}')
+    ctx.coverage_extra['replayed_twice'] = ctx.coverage_extra.get('replayed_twice', 0) + len(idx)
+    ctx.coverage_extra['divergences'] = 0
+
+
 class HarnessError(Exception):
     """The machinery itself misbehaved (never reported as a VIOLATION; exit 2)."""
 
